@@ -11,6 +11,8 @@
 pub mod apple;
 pub mod batch_recv;
 mod socket;
+#[cfg(feature = "verif-hooks")]
+pub mod verif_hooks;
 
 #[cfg(target_vendor = "apple")]
 pub use apple::AppleInterfaceBinder;
